@@ -1,454 +1,24 @@
 package main
 
-import (
-	"fmt"
-	"strings"
-
-	"golang.org/x/tools/go/ssa"
-)
-
 func init() {
 	register(&propDef{
 		id: "C29", run: runC29, minOblig: 60,
-		explanation: "Decides, for the five key-exchange implementations (dhGroup, ecdh, curve25519sha256, dhGEXSHA, mlkem768WithCurve25519sha256) and both roles: (transcript binding) the exchange-hash input is, in order, the handshake magics (V_C,V_S,I_C,I_S), the host key, [GEX: min,n,max,p,g], the client's ephemeral value, the server's ephemeral value, K — each value classified by provenance (field of the message decoded from the peer / field of a message this side marshals and sends) so that in Client the client value is OUR sent value and in Server it is the PEER's received value, and K is encoded as mpint (string for ML-KEM) from a secret that depends on the peer's ephemeral field; received messages are never modified between decoding and hashing; (peer-value validation) diffieHellman rejects exactly Y <= 1 or Y >= p-1 (3x3 Cmp outcomes evaluated) and its error is checked before use; GEX applies the same predicate inline to the peer's value, the client also to g and to p's bit length, both sides to the derived k; unmarshalECKey returns a point only behind validateECPublicKey == true, which is true only behind IsOnCurve and the (0,0)/range tests; X25519 and ML-KEM length tests and checked errors precede the secret; (authenticity) handshakeTransport.client returns a result only behind verifyHostKeySignature == nil and hostKeyCallback == nil, on the key parsed from result.HostKey, verifyHostKeySignature verifies result.H with the negotiated algorithm; (group choice) chooseDH never selects a group outside [MinBits, MaxBits] and fails when none qualifies. NOT decided: the OpenSSH preference among in-range groups, numeric agreement of H and K.",
-		assumptions: []string{"math/big Cmp/Sign contracts", "crypto/ecdh, curve25519.X25519 reject low-order points (C11)", "crypto/mlkem contracts"},
+		explanation: "Decides, for the five key-exchange implementations (dhGroup, ecdh, curve25519sha256, dhGEXSHA, mlkem768WithCurve25519sha256) and both roles, by symbolic execution of every path of Client/Server with the helpers of package ssh executed in place (values are identified by provenance — field of the message decoded from the peer, field of a message this side marshals, result of a named call, big-number expression — never by variable names; Cmp/Sign results, the length of a peer value and the bit length of a received prime are enumerated over finite domains, every other undetermined branch is explored both ways; a fact must hold on EVERY path that can return a nil error): (transcript binding) kexResult.H is the Sum of a hash that received, in order and in the prescribed wire encoding, V_C,V_S,I_C,I_S (the fields of the magics parameter), the host key, [GEX: min,n,max,p,g], the client's ephemeral value, the server's ephemeral value, K — where in Client the client value is the value this side SENT (field of a message that is marshalled and handed to writePacket) and in Server the value RECEIVED, K is mpint (string for ML-KEM) of a secret whose term contains the peer's ephemeral field; writeString/writeInt/binary.Write, a buffer filled by marshalInt/marshalString/PutUint32 and written, and the hand-written 4-byte big-endian length followed by the bytes are recognised as the same encodings; received messages (fields and bytes) are never stored into after decoding; (peer-value validation) DH and GEX: K = Exp(Y, x, p) with Y the peer's field, own value Exp(g, x, p) with the same x and p (GEX: the hashed g, p), and Cmp(Y,1)=1 and Cmp(Y,p-1)=-1 decided, p-1 being Sub(p,1) or the group's pMinus1; diffieHellman itself likewise; the GEX client also for g, for the derived k and bits(p) within [min,max] exactly; ECDH: K = ScalarMult of the two coordinates elliptic.Unmarshal decoded from the peer's field on the exchange's curve, with (0,0) excluded, both coordinates < Params().P and IsOnCurve true decided (also on unmarshalECKey / validateECPublicKey themselves); X25519 and ML-KEM: K derives from X25519 / Decapsulate / Encapsulate(NewEncapsulationKey768) applied to the prescribed slice of the peer's field, their errors decided nil and len(peer value) decided equal to 32 / 1120 / 1216; (authenticity) handshakeTransport.client returns the Client result only when the key parsed from result.HostKey verified (nil) the signature parsed from result.Signature over result.H, the signature format equals underlyingAlgo(negotiated host key algorithm), and hostKeyCallback returned nil for that same key; (group choice) on every successful path of chooseDH the returned prime belongs to a candidate whose size was decided >= MinBits and <= MaxBits, and success without a selection is impossible; (fixed groups) by the same execution of the init functions that store into kexAlgoMap: every *dhGroup stored there has, at the time of the store, p = SetString(RFC prime pinned by digest, 16), pMinus1 = p-1 of that same prime term, g = 2, and the hash its algorithm name prescribes, and all four names are registered. Loops whose continuation is undetermined are followed for 3 (chooseDH: 4) decisions per activation; an execution that exceeds its budget or a function using defer/go/select is reported as undecided. NOT decided: the OpenSSH preference among in-range groups, numeric agreement of H and K, the wire helpers writeString/writeInt/marshalInt/marshalString themselves.",
+		assumptions: []string{"math/big Cmp/Sign contracts", "crypto/ecdh, curve25519.X25519 reject low-order points (C11)", "crypto/mlkem contracts", "writeString/writeInt/marshalInt/marshalString/binary.Write encode as their names say"},
 	})
-	tech("C29", "hash-input sequence extraction with message-provenance classes (E10), finite-domain evaluation of Cmp-based range predicates (E6), must-cross CFG rules on checked calls (E2)")
+	tech("C29", "symbolic path execution of the key-exchange functions with in-place execution of same-package helpers (E6/E10/E2 combined): hash-input sequence with provenance terms, finite-domain enumeration of Cmp/len/BitLen outcomes, facts required on every accepting path")
 }
 
 func runC29(c *Ctx) {
+	c29Debug(c)
 	c29Groups(c)
 	for _, sp := range kexSpecs {
 		for _, side := range []string{"Client", "Server"} {
-			checkKexHash(c, "C29.hash-seq", sp, side)
+			c29Kex(c, sp, side)
 		}
 	}
-	// ---- diffieHellman range predicate
-	if f := c.fn("ssh", "(*dhGroup).diffieHellman"); f != nil {
-		their := f.Params[1]
-		var c1, cP *ssa.Call
-		for _, ci := range callsNamed(f, "(*math/big.Int).Cmp") {
-			call := ci.(*ssa.Call)
-			if call.Call.Args[0] != ssa.Value(their) {
-				continue
-			}
-			switch p := accessPath(call.Call.Args[1]); {
-			case p == "bigOne":
-				c1 = call
-			case strings.HasSuffix(p, ".pMinus1"):
-				cP = call
-			}
-		}
-		if c1 == nil || cP == nil {
-			c.fail("C29.dh-range", "(*dhGroup).diffieHellman", f, "comparisons of the peer value with 1 and p-1 not found")
-		} else {
-			bad := ""
-			for _, a := range []int64{-1, 0, 1} {
-				for _, b := range []int64{-1, 0, 1} {
-					e := newEnv()
-					e.bind(c1, a)
-					e.bind(cP, b)
-					e.solve(f)
-					acc := false
-					for _, r := range acceptReturns(f, 1) {
-						if e.reach[r.Block()] {
-							acc = true
-						}
-					}
-					want := a > 0 && b < 0
-					if acc != want {
-						bad = fmt.Sprintf("Cmp(Y,1)=%d Cmp(Y,p-1)=%d: accepted=%v, specification (1 < Y < p-1) %v", a, b, acc, want)
-					}
-				}
-			}
-			c.check(bad == "", "C29.dh-range", "(*dhGroup).diffieHellman", f, "accepts exactly 1 < Y < p-1 (9 cases)", bad)
-		}
-		// exponent base is the validated value, modulus the group's p
-		for _, ci := range callsNamed(f, "(*math/big.Int).Exp") {
-			a := ci.Common().Args
-			c.check(a[1] == ssa.Value(their) && strings.HasSuffix(accessPath(a[3]), ".p"), "C29.dh-range", "diffieHellman Exp(peer, priv, p)", ci, "the secret is peer^priv mod p of the validated value", "the shared secret is not computed from the validated peer value modulo the group prime")
-		}
-	}
-	// dhGroup Client/Server use diffieHellman on the peer's field, checked
-	for _, side := range []string{"Client", "Server"} {
-		f := c.fn("ssh", "(*dhGroup)."+side)
-		if f == nil {
-			continue
-		}
-		m := kexMessages(f)
-		dh := callsNamed(f, "(*ssh.dhGroup).diffieHellman")
-		okPeer := len(dh) == 1
-		if okPeer {
-			_, _, base, ok := fieldOf(dh[0].Common().Args[1])
-			okPeer = ok && m.peer[base]
-		}
-		c.check(okPeer, "C29.peer-validated", "dhGroup."+side, f, "the peer's public value goes through diffieHellman", "the peer's DH value does not go through diffieHellman's range check")
-		c.mustCross("C29.peer-validated", "dhGroup."+side+" checked", f, acceptReturns(f, 1), callSuccess(dh, -1, isNil), "diffieHellman's nil-error edge")
-	}
-	// ---- GEX inline predicates
-	for _, side := range []string{"Client", "Server"} {
-		f := c.fn("ssh", "(*dhGEXSHA)."+side)
-		if f == nil {
-			continue
-		}
-		m := kexMessages(f)
-		// the Exp call computing k: base is a field of a peer message
-		var kExp *ssa.Call
-		for _, ci := range callsNamed(f, "(*math/big.Int).Exp") {
-			if _, _, base, ok := fieldOf(ci.Common().Args[1]); ok && m.peer[base] {
-				if _, fld, _, _ := fieldOf(ci.Common().Args[1]); fld == "X" || fld == "Y" {
-					kExp = ci.(*ssa.Call)
-				}
-			}
-		}
-		if kExp == nil {
-			c.fail("C29.gex-range", "dhGEXSHA."+side, f, "secret computation from the peer's value not found")
-			continue
-		}
-		peerVal := kExp.Call.Args[1]
-		_, pf, pbase, _ := fieldOf(peerVal)
-		var c1, cP []*ssa.Call
-		for _, ci := range callsNamed(f, "(*math/big.Int).Cmp") {
-			call := ci.(*ssa.Call)
-			_, f2, b2, ok := fieldOf(call.Call.Args[0])
-			if !ok || f2 != pf || b2 != pbase {
-				continue
-			}
-			if accessPath(call.Call.Args[1]) == "bigOne" {
-				c1 = append(c1, call)
-			} else {
-				cP = append(cP, call)
-			}
-		}
-		if len(c1) != 1 || len(cP) != 1 {
-			c.fail("C29.gex-range", "dhGEXSHA."+side, kExp, "the peer's value is not compared with 1 and p-1 before the secret is computed")
-		} else {
-			// p-1 operand really is p-1: result of Sub(p, bigOne)
-			pm1OK := false
-			if sub, ok := cP[0].Call.Args[1].(*ssa.Call); ok && short(calleeName(&sub.Call)) == "(*math/big.Int).Sub" && accessPath(sub.Call.Args[2]) == "bigOne" {
-				pm1OK = true
-			}
-			bad := ""
-			for _, a := range []int64{-1, 0, 1} {
-				for _, b := range []int64{-1, 0, 1} {
-					e := newEnv()
-					e.bind(c1[0], a)
-					e.bind(cP[0], b)
-					cut := e.cuts(f)
-					got := reachAfter(c1[0], cut)[kExp.Block()] || (c1[0].Block() == kExp.Block())
-					want := a > 0 && b < 0
-					if got != want {
-						bad = fmt.Sprintf("Cmp(v,1)=%d Cmp(v,p-1)=%d: secret computed=%v, specification %v", a, b, got, want)
-					}
-				}
-			}
-			c.check(bad == "" && pm1OK, "C29.gex-range", "dhGEXSHA."+side+" peer value", kExp, "secret computed exactly when 1 < v < p-1 (9 cases), p-1 = Sub(p, 1)", bad+fmt.Sprintf(" (p-1 operand recognised: %v)", pm1OK))
-		}
-		// derived k safe: Cmp on the Exp result
-		var k1, kP []*ssa.Call
-		for _, ci := range callsNamed(f, "(*math/big.Int).Cmp") {
-			call := ci.(*ssa.Call)
-			if call.Call.Args[0] == ssa.Value(kExp) {
-				if accessPath(call.Call.Args[1]) == "bigOne" {
-					k1 = append(k1, call)
-				} else {
-					kP = append(kP, call)
-				}
-			}
-		}
-		if side == "Client" {
-			okK := len(k1) == 1 && len(kP) == 1
-			if okK {
-				for _, a := range []int64{-1, 0, 1} {
-					for _, b := range []int64{-1, 0, 1} {
-						e := newEnv()
-						e.bind(k1[0], a)
-						e.bind(kP[0], b)
-						cut := e.cuts(f)
-						r := reachAfter(k1[0], cut)
-						acc := false
-						for _, t := range acceptReturns(f, 1) {
-							if r[t.Block()] {
-								acc = true
-							}
-						}
-						if acc != (a > 0 && b < 0) {
-							okK = false
-						}
-					}
-				}
-			}
-			c.check(okK, "C29.gex-range", "dhGEXSHA.Client derived k", kExp, "result returned only when 1 < k < p-1", "the derived secret's safety check (1 < k < p-1) is missing or altered")
-			// g and p
-			var g1, gP []*ssa.Call
-			for _, ci := range callsNamed(f, "(*math/big.Int).Cmp") {
-				call := ci.(*ssa.Call)
-				if _, f2, b2, ok := fieldOf(call.Call.Args[0]); ok && f2 == "G" && m.peer[b2] {
-					if accessPath(call.Call.Args[1]) == "bigOne" {
-						g1 = append(g1, call)
-					} else {
-						gP = append(gP, call)
-					}
-				}
-			}
-			okG := len(g1) == 1 && len(gP) == 1
-			if okG {
-				for _, a := range []int64{-1, 0, 1} {
-					for _, b := range []int64{-1, 0, 1} {
-						e := newEnv()
-						e.bind(g1[0], a)
-						e.bind(gP[0], b)
-						cut := e.cuts(f)
-						got := reachAfter(g1[0], cut)[kExp.Block()]
-						if got != (a > 0 && b < 0) {
-							okG = false
-						}
-					}
-				}
-			}
-			c.check(okG, "C29.gex-range", "dhGEXSHA.Client generator", f, "the exchange continues only when 1 < g < p-1", "the server-provided generator is not range-checked (1 < g < p-1)")
-			minB, ok1 := pkgConstInt(c, "ssh", "dhGroupExchangeMinimumBits")
-			maxB, ok2 := pkgConstInt(c, "ssh", "dhGroupExchangeMaximumBits")
-			var bl []*ssa.Call
-			for _, ci := range callsNamed(f, "(*math/big.Int).BitLen") {
-				if _, f2, b2, ok := fieldOf(ci.Common().Args[0]); ok && f2 == "P" && m.peer[b2] {
-					bl = append(bl, ci.(*ssa.Call))
-				}
-			}
-			okP := ok1 && ok2 && len(bl) > 0
-			if okP {
-				for _, n := range []int64{0, minB - 1, minB, minB + 1, maxB - 1, maxB, maxB + 1, 1 << 20} {
-					e := newEnv()
-					for _, b := range bl {
-						e.bind(b, n)
-					}
-					cut := e.cuts(f)
-					got := reachAfter(bl[0], cut)[kExp.Block()]
-					if got != (n >= minB && n <= maxB) {
-						okP = false
-					}
-				}
-			}
-			c.check(okP, "C29.gex-range", "dhGEXSHA.Client prime size", f, fmt.Sprintf("the exchange continues only when %d <= bits(p) <= %d", minB, maxB), "the server-provided prime's bit length is not bounded as documented")
-		}
-	}
-	// ---- EC validation
-	if f := c.fn("ssh", "unmarshalECKey"); f != nil {
-		v := callsNamed(f, "ssh.validateECPublicKey")
-		c.mustCross("C29.ec-valid", "unmarshalECKey", f, acceptReturns(f, 2), callSuccess(v, 0, isTrue), "validateECPublicKey == true")
-		if len(v) == 1 {
-			um := callsNamed(f, "crypto/elliptic.Unmarshal")
-			okArgs := len(um) == 1
-			if okArgs {
-				xs, ys := resultN(um[0].(*ssa.Call), 0), resultN(um[0].(*ssa.Call), 1)
-				okArgs = len(xs) == 1 && len(ys) == 1 && v[0].Common().Args[1] == xs[0] && v[0].Common().Args[2] == ys[0]
-			}
-			c.check(okArgs, "C29.ec-valid", "unmarshalECKey validates the decoded point", v[0], "the decoded coordinates are the ones validated", "validateECPublicKey is not applied to the decoded coordinates")
-		}
-	}
-	if f := c.fn("ssh", "validateECPublicKey"); f != nil {
-		acc := valueReturns(f, 0)
-		onCurve := calls(f, nameIs("invoke:(crypto/elliptic.Curve).IsOnCurve"))
-		c.mustCross("C29.ec-valid", "validateECPublicKey IsOnCurve", f, acc, callSuccess(onCurve, 0, isTrue), "IsOnCurve(x, y) == true")
-		for i, ci := range callsNamed(f, "(*math/big.Int).Cmp") {
-			call := ci.(*ssa.Call)
-			lt := edgesImplying(call, []int64{-1, 0, 1}, func(d int64) bool { return d < 0 })
-			c.mustCross("C29.ec-valid", fmt.Sprintf("validateECPublicKey coordinate#%d < P", i), f, acc, lt, "coordinate < P")
-		}
-		// (0,0) rejected
-		var xs, ys *ssa.Call
-		for _, ci := range callsNamed(f, "(*math/big.Int).Sign") {
-			call := ci.(*ssa.Call)
-			if call.Call.Args[0] == ssa.Value(f.Params[1]) {
-				xs = call
-			} else if call.Call.Args[0] == ssa.Value(f.Params[2]) {
-				ys = call
-			}
-		}
-		okZ := xs != nil && ys != nil
-		if okZ {
-			e := newEnv()
-			e.bind(xs, 0)
-			e.bind(ys, 0)
-			e.solve(f)
-			for _, t := range acc {
-				if e.reach[t.Block()] {
-					okZ = false
-				}
-			}
-		}
-		c.check(okZ, "C29.ec-valid", "validateECPublicKey rejects (0,0)", f, "the point at infinity encoding is rejected", "the (0,0) point is no longer rejected")
-	}
-	for _, side := range []string{"Client", "Server"} {
-		if f := c.fn("ssh", "(*ecdh)."+side); f != nil {
-			m := kexMessages(f)
-			um := callsNamed(f, "ssh.unmarshalECKey")
-			okPeer := len(um) == 1
-			if okPeer {
-				_, _, base, ok := fieldOf(um[0].Common().Args[1])
-				okPeer = ok && m.peer[base]
-			}
-			c.check(okPeer, "C29.peer-validated", "ecdh."+side, f, "the peer's point goes through unmarshalECKey", "the peer's EC point is not validated by unmarshalECKey")
-			sm := calls(f, nameIs("invoke:(crypto/elliptic.Curve).ScalarMult"))
-			c.mustCross("C29.peer-validated", "ecdh."+side+" checked", f, callInstrs(sm), callSuccess(um, -1, isNil), "unmarshalECKey's nil-error edge")
-			if len(sm) == 1 && len(um) == 1 {
-				xs, ys := resultN(um[0].(*ssa.Call), 0), resultN(um[0].(*ssa.Call), 1)
-				a := sm[0].Common().Args
-				c.check(len(xs) == 1 && len(ys) == 1 && a[0] == xs[0] && a[1] == ys[0], "C29.peer-validated", "ecdh."+side+" secret from validated point", sm[0], "ScalarMult uses the validated coordinates", "the shared secret is not computed from the validated point")
-			}
-		}
-	}
-	// ---- X25519 / ML-KEM: length test + checked calls before the secret is used
-	for _, sp := range []struct{ recv, side string }{{"curve25519sha256", "Client"}, {"curve25519sha256", "Server"}, {"mlkem768WithCurve25519sha256", "Client"}, {"mlkem768WithCurve25519sha256", "Server"}} {
-		f := c.fn("ssh", "(*"+sp.recv+")."+sp.side)
-		if f == nil {
-			continue
-		}
-		m := kexMessages(f)
-		name := sp.recv + "." + sp.side
-		x := callsNamed(f, "curve25519.X25519")
-		okArg := len(x) == 1
-		if okArg {
-			_, _, base, ok := fieldOf(sliceBase(x[0].Common().Args[1]))
-			okArg = ok && m.peer[base]
-		}
-		c.check(okArg, "C29.peer-validated", name+" X25519(priv, peer)", f, "the peer's value is the point argument of X25519", "X25519 is not applied to the peer's public value")
-		acc := acceptReturns(f, 1)
-		c.mustCross("C29.peer-validated", name+" X25519 checked", f, acc, callSuccess(x, -1, isNil), "X25519's nil-error edge (rejects low-order points)")
-		// exact length test on the peer's value before X25519
-		var lenEq []edge
-		var wantLen int64 = 32
-		if strings.HasPrefix(sp.recv, "mlkem") {
-			if sp.side == "Client" {
-				wantLen = 1088 + 32
-			} else {
-				wantLen = 1184 + 32
-			}
-		}
-		allInstrs(f, func(in ssa.Instruction) {
-			if call, ok := in.(*ssa.Call); ok && calleeName(&call.Call) == "builtin:len" {
-				if _, _, base, ok := fieldOf(call.Call.Args[0]); ok && m.peer[base] {
-					lenEq = append(lenEq, edgesImplying(call, []int64{0, wantLen - 1, wantLen, wantLen + 1, 4096}, func(d int64) bool { return d == wantLen })...)
-				}
-			}
-		})
-		c.mustCross("C29.peer-validated", name+" length", f, callInstrs(x), lenEq, fmt.Sprintf("len(peer value) == %d", wantLen))
-		if strings.HasPrefix(sp.recv, "mlkem") {
-			var kem []ssa.CallInstruction
-			if sp.side == "Client" {
-				kem = calls(f, func(n string) bool { return strings.HasSuffix(n, "DecapsulationKey768).Decapsulate") })
-			} else {
-				kem = callsNamed(f, "crypto/mlkem.NewEncapsulationKey768")
-			}
-			c.mustCross("C29.peer-validated", name+" ML-KEM checked", f, acc, callSuccess(kem, -1, isNil), "the ML-KEM operation's nil-error edge")
-		}
-	}
-	// ---- client authenticity
-	if f := c.fn("ssh", "(*handshakeTransport).client"); f != nil {
-		acc := acceptReturns(f, 1)
-		vs := callsNamed(f, "ssh.verifyHostKeySignature")
-		c.mustCross("C29.hostkey", "handshakeTransport.client signature", f, acc, callSuccess(vs, -1, isNil), "verifyHostKeySignature == nil")
-		var cb []ssa.CallInstruction
-		allInstrs(f, func(in ssa.Instruction) {
-			if call, ok := in.(*ssa.Call); ok {
-				if _, fld, _, ok := fieldOf(call.Call.Value); ok && fld == "hostKeyCallback" {
-					cb = append(cb, call)
-				}
-			}
-		})
-		c.mustCross("C29.hostkey", "handshakeTransport.client host key callback", f, acc, callSuccess(cb, -1, isNil), "hostKeyCallback == nil")
-		pk := callsNamed(f, "ssh.ParsePublicKey")
-		okKey := len(pk) == 1 && len(vs) == 1 && len(cb) == 1
-		if okKey {
-			_, fld, base, ok := fieldOf(pk[0].Common().Args[0])
-			var res ssa.Value
-			for _, ci := range calls(f, func(n string) bool { return strings.HasSuffix(n, ".Client") }) {
-				for _, v := range resultN(ci.(*ssa.Call), 0) {
-					res = v
-				}
-			}
-			okKey = ok && fld == "HostKey" && base == res
-			keys := resultN(pk[0].(*ssa.Call), 0)
-			okKey = okKey && len(keys) == 1 && vs[0].Common().Args[0] == keys[0] && cb[0].Common().Args[2] == keys[0] && vs[0].Common().Args[2] == res
-		}
-		c.check(okKey, "C29.hostkey", "handshakeTransport.client key identity", f, "the key verified and shown to the callback is parsed from the HostKey bytes that were hashed into H", "the verified / approved host key is not the key hashed into the exchange hash")
-	}
-	if f := c.fn("ssh", "verifyHostKeySignature"); f != nil {
-		okV := false
-		for _, ci := range calls(f, nameIs("invoke:(ssh.PublicKey).Verify")) {
-			a := ci.Common().Args
-			if _, fld, base, ok := fieldOf(a[0]); ok && fld == "H" && base == ssa.Value(f.Params[2]) && ci.Common().Value == ssa.Value(f.Params[0]) {
-				okV = true
-			}
-		}
-		c.check(okV, "C29.hostkey", "verifyHostKeySignature verifies H", f, "hostKey.Verify(result.H, sig)", "the host key signature is not verified over the exchange hash H")
-		// format must equal underlyingAlgo(algo)
-		var eq []edge
-		allInstrs(f, func(in ssa.Instruction) {
-			if bo, ok := in.(*ssa.BinOp); ok {
-				_, fx, _, okx := fieldOf(bo.X)
-				cy, oky := bo.Y.(*ssa.Call)
-				if okx && fx == "Format" && oky && short(calleeName(&cy.Call)) == "ssh.underlyingAlgo" {
-					y, _ := boolEdges(bo, bo.Op.String() == "==")
-					eq = append(eq, y...)
-				}
-			}
-		})
-		var ver []ssa.Instruction
-		for _, ci := range calls(f, nameIs("invoke:(ssh.PublicKey).Verify")) {
-			ver = append(ver, ci)
-		}
-		c.mustCross("C29.hostkey", "verifyHostKeySignature algorithm", f, ver, eq, "sig.Format == underlyingAlgo(negotiated algorithm)")
-	}
-	// ---- chooseDH
-	if f := c.fn("ssh", "chooseDH"); f != nil {
-		// every store/assignment of best (phi leaves) lies behind the in-range edges
-		var best *ssa.Phi
-		for _, r := range acceptReturns(f, 1) {
-			if p, ok := r.(*ssa.Return).Results[0].(*ssa.Phi); ok {
-				best = p
-			}
-		}
-		okC := best != nil
-		bad := ""
-		if okC {
-			// comparisons group.size < MinBits / > MaxBits
-			var minCmp, maxCmp *ssa.BinOp
-			allInstrs(f, func(in ssa.Instruction) {
-				if bo, ok := in.(*ssa.BinOp); ok {
-					if _, fld, _, ok := fieldOf(bo.Y); ok && fld == "MinBits" {
-						minCmp = bo
-					}
-					if _, fld, _, ok := fieldOf(bo.Y); ok && fld == "MaxBits" {
-						maxCmp = bo
-					}
-				}
-			})
-			if minCmp == nil || maxCmp == nil {
-				okC = false
-				bad = "range comparisons with MinBits/MaxBits not found"
-			} else {
-				for _, tc := range [][2]int64{{1, 0}, {0, 1}, {1, 1}} {
-					e := newEnv()
-					e.bind(minCmp, tc[0])
-					e.bind(maxCmp, tc[1])
-					cut := e.cuts(f)
-					r := reachAfter(minCmp, cut)
-					for _, l := range phiLeaves(best) {
-						if isNilConst(l.val) || l.pred == nil {
-							continue
-						}
-						// leaves that are loads of group.p must be unreachable
-						if _, fld, _, ok := fieldOf(l.val); ok && fld == "p" {
-							if db := l.val.(ssa.Instruction).Block(); r[db] {
-								okC = false
-								bad = fmt.Sprintf("size<Min=%d size>Max=%d: a group can still be selected", tc[0], tc[1])
-							}
-						}
-					}
-				}
-			}
-		}
-		c.check(okC, "C29.choose-dh", "chooseDH range", f, "a group outside [MinBits, MaxBits] can never become the selection", bad)
-	}
+	c29DHFunc(c)
+	c29ECFuncs(c)
+	c29HostKey(c)
+	c29ChooseDH(c)
 }
